@@ -44,6 +44,7 @@ Struct(t) ==
 FrameOK(s, t) == \A n \in HeldNodes(s) \cap {m \in DOMAIN t.ext : t.ext[m] > 0} :
                     n \in Nodes(t) /\ Den(t, n) = Den(s, n)
 FrameName(e) ==
+  IF "dyn" \in DOMAIN e THEN "dyn.operands" ELSE
   CASE e.op \in {"gc", "gc_roots", "incref", "decref"} -> "gc.held_changed"
     [] e.op \in {"swap", "reorder", "sift", "pairs"} -> "reorder.held_den"
     [] e.op \in {"add_var", "declare", "undeclare"} -> "decl.held"
@@ -69,7 +70,7 @@ Resolve(s, a) ==   \* two variables given by name or by level -> names
 (* ---- operation clauses for a call that RETURNED ---- *)
 OpClauses(e, s, t) ==
   LET a == e.a  r == e.ret IN
-  CASE e.op = "init" -> {}
+  CASE e.op \in {"init", "sync", "other"} -> {}
     [] e.op = "var" -> Bool2Set(VarC(s, t, a.name, r), "op.var")
     [] e.op = "ite" ->
          \* a witness call re-asks, after a cache-clearing action, a question the
@@ -138,18 +139,43 @@ RaisedClauses(e, s, t) ==
           [] e.op = "apply" -> IF e.expect_ok THEN {"op.alias_rejected"} ELSE {}
           [] OTHER -> IF e.expect_ok THEN {"op.rejected." \o e.op} ELSE {})
 
+Ev(i) == Traces[tid].events[i]
+
+(* C09: a run with dynamic reordering enabled and the request firing at the
+   k-th node creation (e.dyn.k; 0 = never) against the reference run e.dyn.ref
+   of the same call on the identically built manager *)
+DynClauses(e, t) ==
+  LET d == e.dyn
+      rv == Ev(d.ref)
+  IN (IF e.exc = "_NeedsReordering" THEN {"dyn.signal_escaped"}
+      ELSE IF e.exc # rv.exc THEN {"dyn.other_exception"} ELSE {})   \* same outcome as the untriggered run
+     \cup (IF t.lastlen = Off THEN {"dyn.not_rearmed"} ELSE {})
+     \cup (IF e.exc = "" /\ rv.exc = "" /\ AllWellFormed(rv.post)
+          THEN LET R == WithD(rv.post) IN
+               IF /\ Len(d.rets) = Len(rv.dyn.rets)
+                  /\ \A i \in DOMAIN d.rets :
+                        IsRef(t, d.rets[i]) /\ Den(t, d.rets[i]) = Den(R, rv.dyn.rets[i])
+               THEN {} ELSE {"dyn.result"}
+          ELSE {})
+
 Verdict(e, s0, t0) ==
   IF ~(AllWellFormed(t0) /\ AllWellFormed(s0))
   THEN {"canon.malformed"} \cup StructNoDen(t0)
        \cup (IF e.exc = "" THEN {"op." \o e.op} ELSE {"exc.canonical"})
+       \cup (IF "dyn" \in DOMAIN e THEN {"dyn.result"} ELSE {})
   ELSE LET s == WithD(s0)
            t == WithD(t0)
        IN Struct(t)
           \cup (IF FrameOK(s, t) THEN {} ELSE {FrameName(e)})
           \cup (IF "views" \in DOMAIN e /\ ~ViewsOK(e, t) THEN {"decl.views"} ELSE {})
-          \cup (IF e.exc = "" THEN OpClauses(e, s, t) ELSE RaisedClauses(e, s, t))
+          \cup (IF "dyn" \in DOMAIN e THEN DynClauses(e, t) ELSE {})
+          \cup (IF "dynnat" \in DOMAIN e    \* natural triggering: stays enabled, no signal
+               THEN (IF t.lastlen = Off /\ s.lastlen # Off THEN {"dyn.not_rearmed"} ELSE {})
+                    \cup (IF e.exc = "_NeedsReordering" THEN {"dyn.signal_escaped"} ELSE {})
+               ELSE {})
+          \cup (IF e.exc = "" THEN OpClauses(e, s, t)
+               ELSE IF "dyn" \in DOMAIN e \/ "dynnat" \in DOMAIN e THEN {} ELSE RaisedClauses(e, s, t))
 
-Ev(i) == Traces[tid].events[i]
 Init == tid \in 1..Len(Traces) /\ l = 0
 Next == /\ l < Len(Traces[tid].events)
         /\ LET e == Ev(l + 1)
